@@ -1,7 +1,7 @@
 (* C02, second model file (executable definitions only; proofs in Proofs/StreamsTrace_proofs.v).
 
-   Part 4  ResponseHandlerMap WITH the clock: OrphanageTracker (connection.rs 2296-2334) keeps the
-           Instant at which each id was orphaned; old_orphans_count (2399-2403).  The clock is an
+   Part 4  ResponseHandlerMap WITH the clock: OrphanageTracker (connection.rs 2317-2355) keeps the
+           Instant at which each id was orphaned; old_orphans_count (2408-2411).  The clock is an
            abstract label [now : N] (nanoseconds of a monotonic clock) carried by each operation.
    Part 5  what an outside observer sees of one connection (the requests the callers submit, the
            frames the peer receives and sends, what the callers get back) and the acceptor
